@@ -27,12 +27,42 @@ def classify(tid, clause, case):
     if out.get('tag') != 'sig':
         return clause
     ok = False
+
+    def pos_index(ps, name):
+        i = 0
+        for q in ps:
+            if q['k'] in ('po', 'pok'):
+                i += 1
+                if q['n'] == name:
+                    return i
+        return 0
+
+    def at_index(ps, idx):
+        i = 0
+        for q in ps:
+            if q['k'] in ('po', 'pok'):
+                i += 1
+                if i == idx:
+                    return q
+        return None
     for p in out['ps']:
         if p['k'] in ('var', 'vkw'):
             continue
-        anns = [q['an'] for ps in case['ins'] for q in ps if q['n'] == p['n'] and q['k'] not in ('var', 'vkw') and q['an']]
+        # the contributors, as SigContracts!StandsFor defines them: the same-named non-star parameter of an input if it has one,
+        # otherwise (positional result parameters) the input's positional parameter at the same positional index
+        anns = []
+        for ps in case['ins']:
+            same = [q for q in ps if q['n'] == p['n'] and q['k'] not in ('var', 'vkw')]
+            if same:
+                q = same[0]
+            elif p['k'] in ('po', 'pok'):
+                q = at_index(ps, pos_index(out['ps'], p['n']))
+            else:
+                q = None
+            if q is not None and q['an']:
+                anns.append(q['an'])
         if not anns:
-            continue          # positional stand-ins by index: not attributable here, leave to the generic key
+            continue
         expected = anns[0] if len(set(anns)) == 1 else 0
         if p['an'] != expected:
             if expected == 0 and p['an'] in anns:
